@@ -300,7 +300,9 @@ pub fn exec(input: &Value) -> Value {
                 };
                 let mut iters: Vec<serde_arrow::deserializer::DeserializerIterator> = Vec::new();
                 for op in input["ops"].as_array().unwrap() {
-                    let out = match op["op"].as_str().unwrap() {
+                    // every operation runs under catch_unwind: an unwinding `size_hint` / `next` / `nth` is an output
+                    // of the history (and ends it), not an abort of the harness process
+                    let res = std::panic::catch_unwind(std::panic::AssertUnwindSafe(|| match op["op"].as_str().unwrap() {
                         "len" => json!({"n": de.len()}),
                         "is_empty" => json!({"b": de.is_empty()}),
                         "get" => {
@@ -404,8 +406,15 @@ pub fn exec(input: &Value) -> Value {
                             }
                         }
                         other => json!({"bad_op": other}),
-                    };
-                    impl_outs.push(out);
+                    }));
+                    match res {
+                        Ok(out) => impl_outs.push(out),
+                        Err(e) => {
+                            let msg = e.downcast_ref::<String>().cloned().or_else(|| e.downcast_ref::<&str>().map(|s| s.to_string())).unwrap_or_default();
+                            impl_outs.push(json!({"panic": msg}));
+                            break;
+                        }
+                    }
                 }
             }
         }
